@@ -662,6 +662,9 @@ class _DefaultRanges(dict):
         return (0.3, 0.9)
 
 
+alg.NUMERIC_RANGES[0] = _DefaultRanges()
+
+
 # ------------------------------------------------------------------------------------------------ conditioning
 EDGE_EPS = 1e-7
 
